@@ -1,17 +1,23 @@
 import TexcraftModel.Util.Proto
-import TexcraftModel.Model.C13
+import TexcraftModel.Model.C13Trie
+import TexcraftModel.Model.C13Text
+import TexcraftModel.Tables.C13Plain
 
 /-! Driver for C13 (hyphenation). One request:
 
-`h <lc> <patterns> <exceptions> <words> <impl>`
+`h <lc> <pmode> <patterns> <emode> <exceptions> <words> <impl>`
 
+* `<pmode>` `t`: every item of `<patterns>` is the text of one `load_patterns` call (parsed by
+  `splitWs`), `l`: the items are the patterns; `<emode>` `t`: the item of `<exceptions>` is the text
+  of an `insert_exceptions` call (parsed by `exceptionLines`), `l`: one `insert_exception` per item;
 * `<lc>`: `a` = `AsciiLowerCaser`, `t` = the harness's table lower-caser (`tableLc`);
 * `<patterns>`, `<exceptions>`, `<words>`: comma-separated, `_` = empty list, `~` = the empty
   item; `^HHHH` inside an item = the character with that hexadecimal code point;
 * `<impl>`: per word (comma-separated) the indices the real `calculate_indices` returned,
   dot-separated, `_` = none, `P` = it panicked.
 
-Reply: `wf=<0/1> dup=<0/1> | <per word>;<per word>;…` with per word
+Reply: `wf=<0/1> dup=<0/1>[ plain=1] | <per word>;<per word>;…` (`plain=1`: the patterns and
+exceptions are exactly `Tables/C13Plain.lean`, the object of `plain_tex_spec`) with per word
 `<model scores | P>:<model indices | P>:<spec indices | N>:<verdict 1, 0 or ->:<x if listed exception>`
 (`N`/`-`: the word contains a non-letter, outside the quantifier). The verdict is the
 specification evaluated on the *real* output. -/
@@ -48,10 +54,10 @@ def hasDup : List (List Edge) → Bool
   | [] => false
   | k :: ks => ks.contains k || hasDup ks
 
-def perWord (h : Hyph) (lc : Char → Option Char) (ps es : List (List Char))
+def perWord (h : CHyph) (lc : Char → Option Char) (ps es : List (List Char))
     (w : List Char) (impl : Option (List Nat)) : String :=
-  let ms := aggregateScores h lc w
-  let mi := calculateIndices h lc w
+  let ms := cAggregateScores h lc w
+  let mi := cCalculateIndices h lc w
   let m1 := match ms with | none => "P" | some s => dots s
   let m2 := match mi with | none => "P" | some s => dots s
   match lowerWord lc w with
@@ -62,22 +68,90 @@ def perWord (h : Hyph) (lc : Char → Option Char) (ps es : List (List Char))
     let x := if (findException es lw).isSome then "x" else ""
     s!"{m1}:{m2}:{dots sp}:{v}:{x}"
 
+/-! Histories: `s <lc> <ops> <impl>`; an op is an item whose first character is `P` (text for
+`load_patterns`), `E` (text for `insert_exceptions`), `X` (entry for `insert_exception`), `Q`
+(word to query) or `D` (start from plain TeX's data; first op only). `<impl>`: per query the real
+indices. Reply: per query `<wf><dup>:<model scores>:<model idx>:<spec idx|N>:<verdict>:<x>:<b>`,
+the model and the specification evaluated on the state *at that point*; `b` = `b` when the word
+has an exception, some loaded pattern has the shape `.w.` of that word, and the model of the
+code before `fixes/C13-b.patch` reproduces the real indices (finding C13-b), else empty. -/
+
+def decodeOp (it : List Char) : Option (Char × List Char) :=
+  match it with
+  | c :: rest => some (c, if rest = ['~'] then [] else unesc rest)
+  | [] => none
+
+structure SeqSt where
+  hFix : CHyph := {}
+  hCur : CHyph := {}
+  ps : List (List Char) := []
+  es : List (List Char) := []
+  out : List String := []
+  impls : List (Option (List Nat)) := []
+
+def seqStep (lc : Char → Option Char) (st : SeqSt) (op : Char × List Char) : SeqSt :=
+  match op with
+  | ('D', _) =>
+    { st with hFix := cBuild plainPatterns plainExceptions, hCur := cBuild plainPatterns plainExceptions,
+              ps := plainPatterns, es := plainExceptions }
+  | ('P', t) =>
+    { st with hFix := applyOpG true st.hFix (.loadText t), hCur := applyOpG false st.hCur (.loadText t),
+              ps := st.ps ++ splitWs t [] }
+  | ('E', t) =>
+    { st with hFix := applyOpG true st.hFix (.excText t), hCur := applyOpG false st.hCur (.excText t),
+              es := st.es ++ exceptionLines t }
+  | ('X', e) =>
+    { st with hFix := applyOpG true st.hFix (.exc e), hCur := applyOpG false st.hCur (.exc e),
+              es := st.es ++ [e] }
+  | ('Q', w) =>
+    match st.impls with
+    | [] => { st with out := st.out ++ ["bad"] }
+    | impl :: rest =>
+      let wf := st.ps.all wellFormed
+      let dup := hasDup ((st.ps.map parsePat).map Pat.key)
+      let base := perWord st.hFix lc st.ps st.es w impl
+      let b := match lowerWord lc w with
+        | some lw =>
+          (findException st.es lw).isSome &&
+          st.ps.any (fun p => (parsePat p).key = [Edge.start] ++ lw.map Edge.ch ++ [Edge.stop]) &&
+          (cCalculateIndices st.hCur lc w == impl)
+        | none => false
+      { st with impls := rest,
+                out := st.out ++ [s!"{if wf then 1 else 0}{if dup then 1 else 0}:{base}:{if b then "b" else ""}"] }
+  | _ => { st with out := st.out ++ ["bad"] }
+
+def handleSeq (lcs ops impl : String) : String :=
+  let lc := if lcs = "t" then tableLc else asciiLc
+  let its := if ops = "_" then [] else (ops.splitOn ",").map (fun x => x.toList)
+  match its.mapM decodeOp, (if impl = "-" then some [] else (impl.splitOn ",").mapM parseIdx) with
+  | some dops, some impls =>
+    let st := dops.foldl (seqStep lc) { impls := impls }
+    ";".intercalate st.out
+  | _, _ => "bad-request"
+
 def handle (line : String) : String :=
   match words line with
-  | ["h", lcs, pats, excs, ws, impl] =>
+  | ["h", lcs, pm, pats, em, excs, ws, impl] =>
     let lc := if lcs = "t" then tableLc else asciiLc
-    let ps := items pats
-    let es := items excs
+    let pit := items pats
+    let eit := items excs
+    -- the hyphenator, built by the model of the calls the real code received
+    let h0 := if pm = "t" then pit.foldl cLoadText {} else pit.foldl cLoadPattern {}
+    let h := if em = "t" then eit.foldl cInsertExceptionsText h0 else eit.foldl cInsertException h0
+    -- the pattern list and the exception list these calls amount to (for the specification)
+    let ps := if pm = "t" then pit.flatMap (fun t => splitWs t []) else pit
+    let es := if em = "t" then eit.flatMap exceptionLines else eit
     let wsl := items ws
     match (impl.splitOn ",").mapM parseIdx with
     | none => "bad-request"
     | some impls =>
       if impls.length ≠ wsl.length then "bad-request" else
-      let h := build ps es
       let wf := ps.all wellFormed
       let dup := hasDup ((ps.map parsePat).map Pat.key)
       let per := (wsl.zip impls).map (fun (w, i) => perWord h lc ps es w i)
-      s!"wf={if wf then 1 else 0} dup={if dup then 1 else 0} | {";".intercalate per}"
+      let pl := ps == plainPatterns && es == plainExceptions
+      s!"wf={if wf then 1 else 0} dup={if dup then 1 else 0}{if pl then " plain=1" else ""} | {";".intercalate per}"
+  | ["s", lcs, ops, impl] => handleSeq lcs ops impl
   | _ => "bad-request"
 
 end DrvC13
